@@ -680,6 +680,14 @@ MUTANTS = [
         }""")]},
     {"id": "n-c04-reorder-init", "property": "C04", "neutral": True,
      "edits": [("src/pdu_loop/frame_element/frame_box.rs", "        ethernet_frame.set_src_addr(MAINDEVICE_ADDR);\n        ethernet_frame.set_dst_addr(EthernetAddress::BROADCAST);", "        ethernet_frame.set_dst_addr(EthernetAddress::BROADCAST);\n        ethernet_frame.set_src_addr(MAINDEVICE_ADDR);")]},
+    {"id": "c12-string-exact-fit-rejected", "property": "C12", "expect": "C12.string|exact-fit-accepted",
+     "edits": [("src/subdevice/eeprom.rs", "            if string_len > N {", "            if string_len >= N {")]},
+    {"id": "c12-string-skip-one-more", "property": "C12", "expect": "C12.string|skip-index-minus-one",
+     "edits": [("src/subdevice/eeprom.rs", "            for i in 0..search_index {\n                let string_len = reader.read_byte().await?;", "            for i in 0..=search_index {\n                let string_len = reader.read_byte().await?;")]},
+    {"id": "c12-string-len-minus-one", "property": "C12", "expect": "C12.string|exact-fit-accepted",
+     "edits": [("src/subdevice/eeprom.rs", "            unsafe { buf.set_len(string_len) }", "            unsafe { buf.set_len(string_len.saturating_sub(1)) }")]},
+    {"id": "n-c12-string-guard-flipped", "property": "C12", "neutral": True, "also": ["C13"],
+     "edits": [("src/subdevice/eeprom.rs", "            if string_len > N {", "            if N < string_len {")]},
     {"id": "n-c12-cmp-min", "property": "C12", "neutral": True, "also": ["C13"],
      "edits": [("src/eeprom/mod.rs", "            .get_mut(0..requested_read_len.min(max_read))", "            .get_mut(0..core::cmp::min(max_read, requested_read_len))")]},
     {"id": "n-c13-match-checked-add", "property": "C13", "neutral": True,
